@@ -424,45 +424,45 @@ func checkToolIntegration(c *c20Case) (key, msg string, stats map[string]int) {
 				return "C20/tool-issues-lost-or-duplicated", fmt.Sprintf("%s: %d diagnostics, tool printed %d issues\n%s", k, n, want[k], c20Show(c)), stats
 			}
 		}
-		// every process finished and collected before the return
-		for _, r := range recs {
-			if r.Phase != "start" {
-				continue
-			}
-			e, ok := ends[r.Pid]
-			if !ok {
-				return "C20/tool-still-running-at-return", fmt.Sprintf("pid %d (%s/%s) has no end record\n%s", r.Pid, r.Tool, r.ID, c20Show(c)), stats
-			}
-			if e.End > returned.UnixNano() {
-				return "C20/tool-still-running-at-return", fmt.Sprintf("pid %d (%s/%s) ended after LintFiles returned\n%s", r.Pid, r.Tool, r.ID, c20Show(c)), stats
-			}
-			if cl, err := os.ReadFile(fmt.Sprintf("/proc/%d/cmdline", r.Pid)); err == nil && strings.Contains(string(cl), "fake-") && syscall.Kill(r.Pid, 0) == nil {
-				return "C20/tool-process-not-collected", fmt.Sprintf("pid %d (%s/%s) still exists after LintFiles returned\n%s", r.Pid, r.Tool, r.ID, c20Show(c)), stats
+	}
+	// every process finished and collected before the return, also when the run ends with a fatal error
+	for _, r := range recs {
+		if r.Phase != "start" {
+			continue
+		}
+		e, ok := ends[r.Pid]
+		if !ok {
+			return "C20/tool-still-running-at-return", fmt.Sprintf("pid %d (%s/%s) has no end record\n%s", r.Pid, r.Tool, r.ID, c20Show(c)), stats
+		}
+		if e.End > returned.UnixNano() {
+			return "C20/tool-still-running-at-return", fmt.Sprintf("pid %d (%s/%s) ended after LintFiles returned\n%s", r.Pid, r.Tool, r.ID, c20Show(c)), stats
+		}
+		if cl, err := os.ReadFile(fmt.Sprintf("/proc/%d/cmdline", r.Pid)); err == nil && strings.Contains(string(cl), "fake-") && syscall.Kill(r.Pid, 0) == nil {
+			return "C20/tool-process-not-collected", fmt.Sprintf("pid %d (%s/%s) still exists after LintFiles returned\n%s", r.Pid, r.Tool, r.ID, c20Show(c)), stats
+		}
+	}
+	mu.Lock()
+	evs := append([]c20Event(nil), events...)
+	mu.Unlock()
+	nrun, ncb := 0, 0
+	for _, e := range evs {
+		switch e.point {
+		case "run-enter":
+			nrun++
+		case "callback-done":
+			ncb++
+			if e.at.After(returned) {
+				return "C20/callback-after-return", c20Show(c), stats
 			}
 		}
-		mu.Lock()
-		evs := append([]c20Event(nil), events...)
-		mu.Unlock()
-		nrun, ncb := 0, 0
-		for _, e := range evs {
-			switch e.point {
-			case "run-enter":
-				nrun++
-			case "callback-done":
-				ncb++
-				if e.at.After(returned) {
-					return "C20/callback-after-return", c20Show(c), stats
-				}
-			}
-		}
-		if nrun != ncb {
-			return "C20/callback-missing-at-return", fmt.Sprintf("%d tool runs requested, %d callbacks finished at return\n%s", nrun, ncb, c20Show(c)), stats
-		}
+	}
+	if nrun != ncb {
+		return "C20/callback-missing-at-return", fmt.Sprintf("%d tool runs requested, %d callbacks finished at return\n%s", nrun, ncb, c20Show(c)), stats
 	}
 	// concurrency bound (always): from the schedule trace and from the tool log
 	ncpu := runtime.NumCPU()
 	mu.Lock()
-	evs := append([]c20Event(nil), events...)
+	evs = append([]c20Event(nil), events...)
 	mu.Unlock()
 	cur, maxCur := 0, 0
 	for _, e := range evs {
@@ -553,7 +553,7 @@ func TestC20(t *testing.T) {
 	}
 	hx.Main(t, "C20", func(r *hx.Run) {
 		r.Rule = fmt.Sprintf("worlds with 1-6 files x 1-4 jobs x 0-6 run steps; the effective shell is decided at step / job default / workflow default / runner label level, where a defaults.run section may also exist without a shell and runs-on may be a literal label, a label list, an expression or a runner group without literal labels (bash, sh, 'bash -e {0}', 'sh -e {0}', pwsh, python, 'python {0}', cmd, windows runner); scripts carry a unique marker and 0-4 ${{ }} placeholders (also unterminated). A stand-in tool (harness/fakecmd, passed as -shellcheck / -pyflakes) logs pid, marker and stdin, sleeps for a generated latency and follows a generated plan (ok / k issues / exit!=0 silent / SIGKILL / SIGKILL after output / empty output / garbage). Seeded delays are injected at the verif schedule points of concurrentProcess. The test process is pinned with taskset (NumCPU=%d here). Oracle: reference shell-resolution model => exactly one invocation per bash/sh resp. python script with the length-preserving sanitised script (plus prologue) on stdin; one diagnostic per printed issue at the run: key; a planned failure <=> fatal error; running tools <= NumCPU at every instant (schedule trace and tool log); all tools ended, collected and called back before LintFiles returns. Non-trivial = >= 2 overlapping tool runs, or a planned failure, or a script with a placeholder; distinct = case hash.", runtime.NumCPU())
-		r.Assumptions = []string{"time is only used as order between events stamped on this host; no assertion depends on a duration", "not asserted: a tool that cannot be found at start-up (the default configuration deliberately disables the rule then)", "the 'finished before return' clause is asserted for runs without a fatal error"}
+		r.Assumptions = []string{"time is only used as order between events stamped on this host; no assertion depends on a duration", "not asserted: a tool that cannot be found at start-up (the default configuration deliberately disables the rule then)", "the finished-before-return clause is asserted for every run, also those ending with a fatal error"}
 		r.Extra["num_cpu"] = runtime.NumCPU()
 		shells := []string{"", "", "", "bash", "sh", "bash -e {0}", "sh -e {0}", "pwsh", "python", "python {0}", "cmd"}
 		r.Check(t, "worlds", hx.N(140, 1500), func(rt *rapid.T) {
